@@ -185,7 +185,7 @@ func templates(k *chain.Keys) []template {
 		half := v.Div64(2)
 		return types.Transaction{SiacoinInputs: []types.SiacoinInput{{ParentID: p.ID, UnlockConditions: uc}},
 			SiacoinOutputs: []types.SiacoinOutput{{Value: half, Address: k.Addr(chain.AddrV1)}, {Value: v.Sub(half), Address: k.Addr(chain.AddrV2)}},
-			MinerFees:      []types.Currency{chain.Fee, types.NewCurrency64(3)}, ArbitraryData: [][]byte{[]byte("memo")}}, p, true
+			MinerFees:      []types.Currency{chain.Fee, types.NewCurrency64(3)}, ArbitraryData: [][]byte{[]byte("memo"), []byte("second memo")}}, p, true
 	}
 	v2ok := func(w *chain.World) bool { return w.ChildHeight() >= w.Net.HardforkV2.AllowHeight }
 	v2base := func(w *chain.World, a types.Address, sp types.SatisfiedPolicy, signer []int) (chain.Use, bool) {
@@ -850,6 +850,20 @@ func probeTemplate(c *vf.Ctx, w *chain.World, tp template) {
 	}
 	if u.V1 != nil {
 		t := u.V1
+		// the boundary between two consecutive arbitrary-data entries moved by one byte (the concatenation and the number
+		// of entries stay the same: only a hash that frames each entry notices)
+		for i := 0; i+1 < len(t.ArbitraryData); i++ {
+			a, b := t.ArbitraryData[i], t.ArbitraryData[i+1]
+			if len(a) > 0 {
+				t.ArbitraryData[i], t.ArbitraryData[i+1] = append([]byte(nil), a[:len(a)-1]...), append([]byte{a[len(a)-1]}, b...)
+				check(fmt.Sprintf(".ArbitraryData[re-split %d|%d: last byte moved right]", i, i+1))
+			}
+			if len(b) > 0 {
+				t.ArbitraryData[i], t.ArbitraryData[i+1] = append(append([]byte(nil), a...), b[0]), append([]byte(nil), b[1:]...)
+				check(fmt.Sprintf(".ArbitraryData[re-split %d|%d: first byte moved left]", i, i+1))
+			}
+			t.ArbitraryData[i], t.ArbitraryData[i+1] = a, b
+		}
 		for i := range t.FileContractRevisions {
 			// hijack: a third party proposes ITS unlock conditions as the contract's new owner and presents the same
 			// conditions as authorisation, signed with its own key (the parent's owners sign nothing)
